@@ -1,7 +1,7 @@
 /-
 Rational enclosures of `exp` and `log` for the model drivers (core Lean only; DESIGN §3).
 Every intermediate value is rounded down to a multiple of 2⁻¹²⁸, the series are cut after the
-remainder is below 2⁻¹²⁰, so `|expR x − eˣ| ≤ 2⁻¹⁰⁰·max(1, eˣ)` and `|lnR x − ln x| ≤ 2⁻¹⁰⁰` on the
+remainder is below 2⁻¹²⁰, so `|expR x − eˣ| ≤ 2⁻¹⁰⁰·eˣ` (relative: the 2ᵏ scaling is exact) and `|lnR x − ln x| ≤ 2⁻¹⁰⁰` on the
 argument ranges the drivers use (|x| ≤ 2000 for `expR`, 2⁻¹¹⁰⁰ ≤ x ≤ 2¹¹⁰⁰ for `lnR`).  These bounds
 are twenty decades below every tolerance they are used under; they are part of the trusted base of
 the approx-mode comparisons, not of any theorem.
@@ -61,6 +61,6 @@ def expR (x : Rat) : Rat :=
   let k : Int := (x / ln2).floor
   let r := x - (k : Rat) * ln2           -- in [0, ln 2)
   let s := ofFx (expFx (toFx r) 36)
-  if k ≥ 0 then s * (2 : Rat) ^ k else rnd (s * (2 : Rat) ^ k)
+  s * (2 : Rat) ^ k                       -- exact scaling: the relative precision of `s` (2⁻¹²⁸) is kept for tiny values
 
 end TapkeeVerif.RatFn
